@@ -194,8 +194,9 @@ class Worker(object):
         self.aborted = False
         self.thread = None
         self.steps = 0               # op-level steps finished
-        self.lock_waits = 0
-        self.busy_waits = 0
+        self.lock_waits = 0          # times blocked because the SQLite transaction lock was taken
+        self.other_waits = 0         # harness hand-shakes (wait_for)
+        self.busy_waits = 0          # turns given away after SQLITE_BUSY
         self.busy_released = True
         self.sched = None
 
@@ -279,7 +280,9 @@ class Scheduler(object):
         while not ready():
             if self.aborted: return False
             if first:
-                w.lock_waits += 1; first = False
+                first = False
+                if label[0] == 'lock': w.lock_waits += 1
+                else: w.other_waits += 1
                 self._log(w, label)
             w.blocked, w.blocked_on = ready, label
             try: self._decide(w, label)
